@@ -167,11 +167,19 @@ func checkReadMethod(r3 *core.RuleRun, fn, advance *ssa.Function) {
 	var accWidth ssa.Value
 	accConst := int64(-1)
 	var accessor ssa.Instruction
+	var delegate *ssa.Call
 	allInstrs(fn, func(ins ssa.Instruction) {
 		switch x := ins.(type) {
 		case *ssa.Call:
 			if x.Common().StaticCallee() == advance {
 				advCalls = append(advCalls, x)
+			}
+			// delegation to a non-consuming sibling (`b, err := r.Peek(n)`): that method tests and slices by its own
+			// argument (checked on its body), so here the guard and the octets returned are those of the argument,
+			// provided the position moves only when the sibling reported no error
+			if f := x.Common().StaticCallee(); f != nil && f != fn && peekLike(f) && len(x.Common().Args) == 2 {
+				guard, accWidth, accessor = x.Common().Args[1], x.Common().Args[1], x
+				delegate = x
 			}
 			if n := calleeName(x); strings.HasPrefix(n, "(encoding/binary.bigEndian).Uint") && fieldLoadName(x.Common().Args[1]) == "data" {
 				accConst = map[string]int64{"Uint16": 2, "Uint32": 4, "Uint64": 8}[x.Common().StaticCallee().Name()]
@@ -184,8 +192,16 @@ func checkReadMethod(r3 *core.RuleRun, fn, advance *ssa.Function) {
 				if !ok {
 					return false
 				}
-				b, ok := c.Common().Value.(*ssa.Builtin)
-				return ok && b.Name() == "len" && fieldLoadName(c.Common().Args[0]) == "data"
+				if b, ok := c.Common().Value.(*ssa.Builtin); ok {
+					return b.Name() == "len" && fieldLoadName(c.Common().Args[0]) == "data"
+				}
+				// the reader's own accessor for the remaining length (`r.Len()`), judged by its body
+				if f := c.Common().StaticCallee(); f != nil && core.PkgRel(f) == "reader" && len(f.Blocks) == 1 && len(c.Common().Args) == 1 {
+					if r, ok := f.Blocks[0].Instrs[len(f.Blocks[0].Instrs)-1].(*ssa.Return); ok && len(r.Results) == 1 {
+						return exprOfRet(r.Results[0]) == "len(data)"
+					}
+				}
+				return false
 			}
 			switch {
 			case (x.Op == token.LSS || x.Op == token.GEQ) && isLenData(x.X):
@@ -236,6 +252,33 @@ func checkReadMethod(r3 *core.RuleRun, fn, advance *ssa.Function) {
 		c, ok := ssaConstInt(amount)
 		okAcc = ok && c == accConst
 	}
+	if delegate != nil && okGuard {
+		// advance only on the sibling's success: dominated by the nil branch of a test of its error result
+		okGuard = false
+		for _, ref := range referrers(delegate) {
+			ex, ok := ref.(*ssa.Extract)
+			if !ok || ex.Index != 1 {
+				continue
+			}
+			for _, r2 := range referrers(ex) {
+				b, ok := r2.(*ssa.BinOp)
+				if !ok || (b.Op != token.NEQ && b.Op != token.EQL) {
+					continue
+				}
+				for _, r3i := range referrers(b) {
+					if ifi, ok := r3i.(*ssa.If); ok {
+						nilSucc := ifi.Block().Succs[1]
+						if b.Op == token.EQL {
+							nilSucc = ifi.Block().Succs[0]
+						}
+						if len(nilSucc.Preds) == 1 && nilSucc.Dominates(adv.Block()) {
+							okGuard = true
+						}
+					}
+				}
+			}
+		}
+	}
 	r3.Check(okGuard, name+":guard=advance", adv.Pos(), "length guard tests the width that is consumed", fmt.Sprintf("the length guard tests %s but the method advances by %s: it reads past the buffer or rejects reads that fit", exprVal(guard), exprVal(amount)))
 	r3.Check(okAcc, name+":accessor=advance", adv.Pos(), "the octets returned are the octets consumed", fmt.Sprintf("the method returns %d/%s octets but advances by %s: following reads are misaligned", accConst, exprVal(accWidth), exprVal(amount)))
 	r3.Check(accessor != nil && core.InstrDominates(accessor, adv), name+":read-before-advance", adv.Pos(), "value taken before the position moves", "the position moves before the value is taken: the method returns the octets after the ones it consumed")
@@ -257,4 +300,43 @@ func exprVal(v ssa.Value) string {
 		return fmt.Sprint(c)
 	}
 	return v.Name()
+}
+
+// peekLike: a reader method that consumes nothing and returns ([]byte, error) for an octet count n: it compares
+// len(data) with n and returns data[:n].
+func peekLike(f *ssa.Function) bool {
+	if core.PkgRel(f) != "reader" || f.Signature.Recv() == nil || len(f.Params) != 2 || f.Signature.Results().Len() != 2 {
+		return false
+	}
+	n := ssa.Value(f.Params[1])
+	var guard, slice, stores bool
+	allInstrs(f, func(ins ssa.Instruction) {
+		switch x := ins.(type) {
+		case *ssa.BinOp:
+			isLen := func(v ssa.Value) bool {
+				c, ok := v.(*ssa.Call)
+				if !ok {
+					return false
+				}
+				b, ok := c.Common().Value.(*ssa.Builtin)
+				return ok && b.Name() == "len" && fieldLoadName(c.Common().Args[0]) == "data"
+			}
+			if ((x.Op == token.LSS || x.Op == token.GEQ) && isLen(x.X) && x.Y == n) || ((x.Op == token.GTR || x.Op == token.LEQ) && isLen(x.Y) && x.X == n) {
+				guard = true
+			}
+		case *ssa.Slice:
+			if fieldLoadName(x.X) == "data" && x.Low == nil && x.High == n {
+				slice = true
+			}
+		case *ssa.Store:
+			if _, local := core.AddrRoot(x.Addr).(*ssa.Alloc); !local {
+				stores = true
+			}
+		case *ssa.Call:
+			if c := x.Common().StaticCallee(); c != nil && core.PkgRel(c) == "reader" {
+				stores = true // calls a sibling: not the simple shape
+			}
+		}
+	})
+	return guard && slice && !stores
 }
